@@ -21,7 +21,7 @@ class C17(SimpleProperty):
             "with known canonical prefixes, synonyms and unknown prefixes, identifiers of 1-3 non-empty URL-path-safe "
             "segments joined by '/', optionally containing the delimiter once or twice (never the dot segments). Status "
             "and Location of both frameworks are compared with each other, with the model of the two route patterns, "
-            "and with expand of the real converter. Non-trivial = the identifier contains '/' or the delimiter.")
+            "and with expand of the real converter. Non-trivial = the identifier contains '/' or the delimiter. With delimiter ':' identifiers may end in the delimiter or double it inside a segment; when the converter is extended after the apps were built, every request is issued once before the extension as well.")
     assumptions = ["Werkzeug / Starlette route matching for the two route templates is modelled (greedy slash-free first "
                    "group, `path` second group) and validated on every case; percent-encoding is outside the model: requests "
                    "use URL-path-safe characters only, as the property's quantifier does"]
